@@ -85,6 +85,10 @@ def restart_part(res):
 
 def run(res, proofs_ok, proofs_why):
     restart_part(res)
+    # sequences of publications that differ in one field only (the bound alone, the status alone, ...), read back
+    # after each by an attached client: what it obtains is the record just published, not a blend with the one before
+    from props import C03
+    C03.sequence_part(res, "C02")
     cfg_box = {}
 
     def extra(res, cfg, binary, rng):
